@@ -11,6 +11,7 @@ mod life;
 mod modl;
 mod num;
 mod orders;
+mod parse;
 mod path;
 mod pos;
 mod prog;
@@ -32,6 +33,7 @@ fn main() {
         "iso" => iso::line,
         "life" => life::line,
         "orders" => orders::line,
+        "parse" => parse::line,
         "mod" => modl::line,
         "pos" => pos::line,
         "prog" => prog::line,
